@@ -12,7 +12,7 @@ RULE = ('(1) S-LRU: get/set/clear histories (5-40 ops, keys incl. 1/True/-1/-2) 
         'of the sorted ids, the materialised shard and a rebuilt pipeline listing the ids in another order execute nothing; '
         '(3) S-CACHE histories (see C04) with the memoisation oracle: a repeated (field, key) behind an unbounded RAM cache or '
         'a disk cache (same or rebuilt object) and the `size` most recently used keys of a bounded RAM cache execute nothing '
-        'upstream, and no bounded cache holds more than size entries; one CacheToRam(size=k) layer object composed into two pipelines keeps a bounded cache per pipeline (using one does not evict the other\'s k most recent keys). distinct_nontrivial counts distinct histories/cases')
+        'upstream, and no bounded cache holds more than size entries (also sizes around 1024 / 2048 and up to 3500, fed with more than size distinct keys, before and after clear()); one CacheToRam(size=k) layer object composed into two pipelines keeps a bounded cache per pipeline (using one does not evict the other\'s k most recent keys). distinct_nontrivial counts distinct histories/cases')
 
 
 def _shard(args):
@@ -23,7 +23,8 @@ def _shard(args):
     d = suite_cache.run_shard((seed, per))
     e = suite_lru.run_shared_ram((seed, max(3, per // 2)))
     f = suite_lru.run_columns_faults((seed, max(3, per // 2)))
-    return a, b, c, d, e, f
+    g = suite_lru.run_lru_big((seed, 2 if per <= 10 else 6))
+    return a, b, c, d, e, f, g
 
 
 def run(tier, seed, res, lean):
@@ -41,8 +42,9 @@ def run(tier, seed, res, lean):
     col_problems = [b for o in outs for b in o[2][1]]
     model_bad = [b for o in outs for b in o[3][1]]
     c08_bad = [b for o in outs for b in o[3][3]]
+    lru_over += [b for o in outs for b in o[6][1]]
     for b in lru_over[:3]:
-        res.violations.append(Violation('c08-lru-unbounded', b['msg'], {'suite': 'S-LRU', **b}))
+        res.violations.append(Violation('c08-lru-readback' if 'right after' in b['msg'] else 'c08-lru-unbounded', b['msg'], {'suite': 'S-LRU', **b}))
     for b in shard_oracle[:3]:
         res.violations.append(Violation('c08-shards', b['msg'][:300], {'suite': 'S-COL', **b}))
     for b in col_problems[:4]:
